@@ -678,7 +678,7 @@ def covering_transfer(rng, world, i):
     return kinds[i % len(kinds)]
 
 
-def c05_probe(res, run, world, rng, i, sim):
+def c05_probe(res, run, world, rng, i, sim, sv=0):
     k = covering_transfer(rng, world, i)
     sync_model(world, sim)
     desc = k
@@ -693,7 +693,7 @@ def c05_probe(res, run, world, rng, i, sim):
             o = world.pick(lambda o: o.kind == "dom" and o.readable and o.size() <= 4); mode, opts = "normal", {}
         else:
             o = world.pick(lambda o: o.kind == "dom" and o.readable); mode, opts = "blk", {"blksize": rng.choice([2, 20, 127]), "ack": "rand", "vary": True}
-        out = run.transfer(0, make_upload(rng, o, mode, opts))
+        out = run.transfer(sv, make_upload(rng, o, mode, opts))
         desc = "%s %04x:%02x" % (k, o.idx, o.sub)
         if out.kind != "ok" or out.data != o.bytes():
             return desc, "upload outcome %r, expected %d bytes %s.." % (out, o.size(), o.bytes()[:8].hex())
@@ -710,7 +710,7 @@ def c05_probe(res, run, world, rng, i, sim):
             o = world.pick(lambda o: o.kind == "dom" and o.writable and o.size() > 7); mode = "seg" if k == "dn-dom-seg" else "blk"
         ln = o.width if o.kind == "int" else rng.randint(1 if o.size() <= 4 else 5, o.size())
         payload = gen.rand_bytes(rng, ln)
-        out = run.transfer(0, make_download(rng, o, payload, mode, True, {"lose": rng.choice(["none", "first"])}))
+        out = run.transfer(sv, make_download(rng, o, payload, mode, True, {"lose": rng.choice(["none", "first"])}))
         desc = "%s %04x:%02x %d bytes" % (k, o.idx, o.sub, ln)
         if out.kind != "ok":
             return desc, "download outcome %r" % out
@@ -723,10 +723,11 @@ def c05_probe(res, run, world, rng, i, sim):
 
 def c05_work(item, ctx):
     res = F.Res()
-    _, idx, nprobes = item
-    exe = ctx["exes"]["asan"]
-    rng = random.Random(F.seed_for(ctx["seed"], "C05", idx))
-    world = World(rng, ns=1, small=rng.random() < 0.5)
+    kind, idx, nprobes = item
+    two = kind == "probe2"        # two servers (CO_SSDO_N = 2): history, recovery and clean transfer on either of them
+    exe = ctx["exes"]["asan2" if two else "asan"]
+    rng = random.Random(F.seed_for(ctx["seed"], "C05", kind, idx))
+    world = World(rng, ns=2 if two else 1, small=rng.random() < 0.5)
     sim = S.Sim(exe, world.cfg)
     run = Runner(res, sim, world, "C05")
     g = H.Hostile(rng, world.cfg, 1)
@@ -734,6 +735,7 @@ def c05_work(item, ctx):
     try:
         prefix_log = []
         for p in range(nprobes):
+            sv = rng.randrange(2) if two else 0
             # hostile prefix: raw SDO frames, mutated dialogues, ticks
             lines = []
             for _ in range(rng.choice([1, 2, 3, 5, 10, 30])):
@@ -751,27 +753,29 @@ def c05_work(item, ctx):
                 v = rng.choice([0x80000000, 0x80000600, 0x600, 0x580, 0x80000580, 0x67F]) + rng.choice([0, 2, world.nid])
                 lines.insert(rng.randint(0, len(lines)), "rx %x 8 %s" % (g.sdo_req_id(0), (bytes([0x23, 0x80, 0x12, rng.choice([1, 2])]) + (v & 0xFFFFFFFF).to_bytes(4, "little")).hex()))
                 res.counters["client_parameter_writes"] += 1
-            lines = [l.replace("rx %x " % g.sdo_req_id(0), "rx %x " % world.req_id(0)) for l in lines]
+            lines = [l.replace("rx %x " % g.sdo_req_id(0), "rx %x " % world.req_id(sv if (not two or rng.random() < 0.8) else 1 - sv)) for l in lines]
             for evs in sim.batch(lines):
                 for iv in S.invs(evs):
                     res.violation("c05/inv/" + iv.split()[0], "invariant during hostile prefix: " + iv, sim=sim)
                     return res
             res.counters["hostile_frames"] += len(lines)
-            st = sim.state()["sdo0"].split(",")
+            st = sim.state()["sdo%d" % sv].split(",")
             tup = (st[0], st[1], st[2], int(st[3]) > 0, min(int(st[4]), 900) // 100, int(st[5]) & 0x80, int(st[5]) > 0, int(st[6]) > 0, int(st[7]) != 0)
             res.states.add(tup)
             how = "abort" if rng.random() < 0.75 else "reset"
             if how == "abort":
-                resp = run.step(0, RC.abort_frame(rng.choice([0, 0x2120]), 0, 0x08000000))
+                resp = run.step(sv, RC.abort_frame(rng.choice([0, 0x2120]), 0, 0x08000000))
                 if len(resp) > 1:
                     res.violation("c05/abort-answered-many", "client abort answered with %d frames" % len(resp), sim=sim)
                     return res
             else:
                 sim.rx(0, bytes([130, world.nid]))
             res.evals += 1
-            desc, err = c05_probe(res, run, world, rng, idx + p, sim)
+            desc, err = c05_probe(res, run, world, rng, idx + p, sim, sv)
             res.counters["probe_" + desc.split()[0]] += 1
             res.counters["after_" + how] += 1
+            if two:
+                res.counters["probes_on_server_%d_of_2" % sv] += 1
             if err:
                 res.violation("c05/wedged/%s/%s/blk%s-obj%s" % (how, desc.split()[0], tup[0], tup[1]),
                               "after hostile history (server state %r) and %s, clean transfer %s failed: %s" % (tup, how, desc, err), sim=sim)
@@ -828,7 +832,7 @@ def configure(m, prop):
             return p
         m.finish = finish
     else:
-        m.VARIANTS = ["asan"]
+        m.VARIANTS = ["asan", "asan2"]
         m.RULE = ("hostile SDO histories (all command bytes, mutated / truncated / interleaved dialogues, ticks) continued between probes; each "
                   "probe = [client abort | NMT reset communication] followed by a clean reference transfer from a covering set (exp/seg/blk x "
                   "up/down x int/string/domain x small/large) whose outcome and storage effect must equal the reference; reachable server "
@@ -839,12 +843,14 @@ def configure(m, prop):
 
         def plan(tier, seed):
             q = tier == "quick"
-            return [("probe", i, 40 if q else 150) for i in range(96 if q else 8000)]
+            return [("probe", i, 40 if q else 150) for i in range(96 if q else 8000)] + [("probe2", i, 40 if q else 150) for i in range(32 if q else 2000)]
         m.plan = plan
 
         def finish(total, tier):
             p = []
             if len(total.states) < 12:
                 p.append("only %d distinct server states reached before probes" % len(total.states))
+            if total.counters["probes_on_server_1_of_2"] < 200:
+                p.append("only %d probes on the second server" % total.counters["probes_on_server_1_of_2"])
             return p
         m.finish = finish
